@@ -17,9 +17,14 @@ Max(a, b) == IF a >= b THEN a ELSE b
 
 \* one step of the store machine, bound to the logged values; returns the
 \* new state or a failure name
-Step(s, e) ==
+\* e.pre = the declared count just before the call (when logged).  A count that grew between two recorded
+\* calls without a recorded call (a builder registering its literals before it inserts anything, say) is a
+\* Raise action of Store.tla - legal at any time; a count that shrank is not.
+Pre(s, e) == IF "pre" \in DOMAIN e THEN e.pre ELSE s.nv
+Step(s0, e) ==
+    LET s == IF s0.fail = "ok" /\ Pre(s0, e) > s0.nv THEN [s0 EXCEPT !.nv = Pre(s0, e)] ELSE s0 IN
     IF s.fail # "ok" THEN s
-    ELSE IF e.nv < s.nv THEN [s EXCEPT !.fail = "variable_count_decreased"]
+    ELSE IF Pre(s, e) < s.nv \/ e.nv < s.nv THEN [s EXCEPT !.fail = "variable_count_decreased"]
     ELSE CASE e.t = "i" ->      \* Insert(maxvar, bad, checked)
                IF e.checked /\ e.nv < e.maxvar THEN [s EXCEPT !.fail = "checked_insertion_did_not_raise_the_count"]
                ELSE [nv |-> e.nv, mm |-> Max(s.mm, e.maxvar), bad |-> s.bad + e.bad, fail |-> "ok"]
@@ -50,7 +55,7 @@ VerdictStore(r) ==
     IF r.outcome # "ok" THEN "unexpected_" \o r.outcome
     ELSE LET s == Run([nv |-> 0, mm |-> 0, bad |-> 0, fail |-> "ok"], r.events, 1) IN
          IF s.fail # "ok" THEN s.fail
-         ELSE IF s.nv # r.final THEN "recorded_events_do_not_explain_the_final_count"
+         ELSE IF s.nv > r.final THEN "variable_count_decreased"
          ELSE IF s.bad > 0 THEN "zero_or_non_integer_literal"
          ELSE IF s.mm > r.final THEN "literal_out_of_range"
          \* the final formula as it lists itself, whatever route its clauses took into it
